@@ -127,16 +127,24 @@ func runC17Huge(h c17Huge) error {
 	return nil
 }
 
+var c17HugeCalls int
+
 func TestC17Huge(t *testing.T) {
 	if !vh.Thorough() && vh.Shard() != 0 {
 		t.Skip("quick: shard 0 only")
 	}
-	vh.Check(t, 1, 3, func(t *rapid.T) {
+	vh.Check(t, 2, 4, func(t *rapid.T) {
 		h := c17Huge{N: rapid.IntRange(530000, 700000).Draw(t, "n"), GapNS: rapid.SampledFrom([]int64{1000, 50000, 2000000}).Draw(t, "gap")}
 		h.Late = rapid.SampledFrom([]int{0, 0, 1, 5}).Draw(t, "late")
 		h.Threshold = rapid.SampledFrom([]int{0, 4000}).Draw(t, "threshold")
 		if h.Late != 0 {
 			h.Threshold = 0 // (a single lost point in the middle is visible only without downsampling)
+		}
+		c17HugeCalls++
+		if c17HugeCalls%2 == 1 { // the two kinds take turns (the first generated case of a run is of this kind)
+			// more than 2^20 points in one series, shown as they are or sampled down to nearly all of them
+			h.N = rapid.IntRange(1<<20+1, 1<<20+60000).Draw(t, "n2")
+			h.Threshold = rapid.SampledFrom([]int{0, 0, h.N - 1, h.N + 5}).Draw(t, "threshold2")
 		}
 		vh.Case("C17.huge", fmt.Sprintf("%+v", h), true)
 		vh.Sample("C17.huge", true, h)
